@@ -30,6 +30,7 @@ EXPECT = {
     'c07b_enqueue_failure_drops_input': ['C07', 'C08'],
     'c12c_context_children_remove_while_iterating': ['C12', 'C18'],
     'c19b_dead_flag_set_by_frontend': ['C19', 'C04'],
+    'c07c_pending_miscount_on_enqueue_death': ['C07', 'C08'],
 }
 # changes that are harmless on the current HEAD by construction (a later fix: commit made the trigger unreachable)
 NEUTRALISED = {
